@@ -196,7 +196,13 @@ def import_export(kty_i: int, private: bool, has_kid: bool, kid: str, has_use: b
     if out is key.dict_value:
         return False                     # as_dict hands out a copy
     out["kid"] = "mutated"
-    return key.as_dict() == want and key.kid == (kid if has_kid else None)
+    if key.as_dict() != want or key.kid != (kid if has_kid else None):
+        return False
+    # an export with override parameters returns them but leaves the key (its kid, its members) as it was
+    over = key.as_dict(kid="published", x5t="other") if kty != "oct" or True else None
+    if over.get("kid") != "published" or over.get("x5t") != "other":
+        return False
+    return key.as_dict() == want and key.kid == (kid if has_kid else None) and dict(key.dict_value) == want
 
 
 # ------------------------------------------------------------------ C12: nothing private in public-facing exports
